@@ -5,6 +5,7 @@ package main
 // Gallina models need as input (effective settings, content oracle, file hashes, script bytes).
 
 import (
+	"archive/tar"
 	"bytes"
 	"crypto/md5"
 	"encoding/hex"
@@ -671,6 +672,21 @@ func emitObs(w *caseWriter, o *pkgObs) {
 			flags, sizes := rawTarMembers(t.B)
 			for i := range flags {
 				w.line("tarent %s %d %d", xs(t.Name), flags[i], sizes[i])
+			}
+			// the members as archive/tar's READER hands them out, for the model's own reader of header fields, PAX records
+			// and GNU long names
+			tr := tar.NewReader(bytes.NewReader(t.B))
+			for {
+				h, err := tr.Next()
+				if err != nil {
+					if err != io.EOF {
+						w.line("tarlogerr %s %s", xs(t.Name), xs(err.Error()))
+					}
+					break
+				}
+				data, _ := io.ReadAll(tr)
+				w.line("tarlog %s %s %d %d %d %d %d %s %s %s %d %x", xs(t.Name), xs(h.Name), h.Typeflag, h.Mode, h.Uid, h.Gid, h.ModTime.Unix(),
+					xs(h.Linkname), xs(h.Uname), xs(h.Gname), len(data), md5.Sum(data))
 			}
 		}
 	}
